@@ -195,6 +195,16 @@ def adjoint_harness(results):
         ts = torch.tensor([0., 0.1], dtype=torch.float64)
         bm = torchsde.BrownianInterval(0., 0.1, size=(B, msize(nt_c)), dtype=torch.float64, entropy=1)
         stage = 'forward'
+        # which solver class the backward pass actually builds (observed through methods.select as adjoint.py calls it)
+        import torchsde._core.adjoint as adj_mod
+        real_select = adj_mod.methods.select
+        chosen = []
+
+        def select_rec(method, sde_type):
+            cls = real_select(method=method, sde_type=sde_type)
+            chosen.append(str(method))
+            return cls
+        adj_mod.methods.select = select_rec
         try:
             with warnings.catch_warnings():
                 warnings.simplefilter('ignore')
@@ -206,7 +216,9 @@ def adjoint_harness(results):
             raise
         except Exception as ex:
             outcome = f'{stage}:{type(ex).__name__}'
-        results.append(((st_c, nt_c, method, adj_c), outcome))
+        finally:
+            adj_mod.methods.select = real_select
+        results.append(((st_c, nt_c, method, adj_c), outcome, chosen[-1] if (stage == 'backward' and len(chosen) > 1) else None))
     return h
 
 
@@ -217,11 +229,14 @@ def run_adjoint(_):
     E.explore(adjoint_harness(results))
     bad = []
     cfgs = set()
-    for cfg, outcome in results:
+    for cfg, outcome, used in results:
         cfgs.add(cfg)
         st, nt, method, adj = cfg
         eff = default_adjoint(st, nt, method) if adj == '<none>' else adj
         ok = adjoint_supported(st, nt, method, eff)
+        if used is not None and used != eff:
+            bad.append((cfg, f'backward pass used adjoint method {used}', f'documented {"default " if adj == "<none>" else ""}adjoint method {eff}'))
+            continue
         if ok and outcome != 'ok':
             bad.append((cfg, outcome, 'documented adjoint method must work'))
         if not ok and outcome == 'ok':
@@ -466,17 +481,29 @@ def replay(data):
         sde = make_sde(st, nt)
         y0 = torch.ones(B, D, dtype=torch.float64, requires_grad=True)
         bm = torchsde.BrownianInterval(0., 0.1, size=(B, msize(nt)), dtype=torch.float64, entropy=1)
+        import torchsde._core.adjoint as adj_mod
+        real_select = adj_mod.methods.select
+        chosen = []
+
+        def select_rec(method, sde_type):
+            chosen.append(str(method)); return real_select(method=method, sde_type=sde_type)
+        adj_mod.methods.select = select_rec
         try:
-            ys = torchsde.sdeint_adjoint(sde, y0, torch.tensor([0., 0.1], dtype=torch.float64), bm=bm, method=method,
-                                         adjoint_method=None if adj == '<none>' else adj, dt=0.05)
-            torch.autograd.grad(ys[-1].sum(), [y0, sde.p])
+            with warnings.catch_warnings():
+                warnings.simplefilter('ignore')
+                ys = torchsde.sdeint_adjoint(sde, y0, torch.tensor([0., 0.1], dtype=torch.float64), bm=bm, method=method,
+                                             adjoint_method=None if adj == '<none>' else adj, dt=0.05)
+                torch.autograd.grad(ys[-1].sum(), [y0, sde.p])
             outcome = 'ok'
         except Exception as e:
             outcome = type(e).__name__
+        finally:
+            adj_mod.methods.select = real_select
         eff = default_adjoint(st, nt, method) if adj == '<none>' else adj
         ok = adjoint_supported(st, nt, method, eff)
-        print('replay C19 adjoint:', cfg, outcome, 'supported' if ok else 'unsupported')
-        return (ok and outcome != 'ok') or (not ok and outcome == 'ok')
+        print('replay C19 adjoint:', cfg, outcome, 'supported' if ok else 'unsupported', 'solvers selected:', chosen, 'documented adjoint method:', eff)
+        wrong_method = outcome == 'ok' and len(chosen) > 1 and chosen[-1] != eff
+        return (ok and outcome != 'ok') or (not ok and outcome == 'ok') or wrong_method
     # malformed sizes
     nt, bb, bmm, hv = cfg
     base = make_sde('ito', nt)
